@@ -190,7 +190,8 @@ def cmd_discover(args):
             print(f"   Suggested merchant: {merchant}")
             print()
             print(f"   {C.DIM}[{merchant}]")
-            print(f"   match: contains(\"{pattern}\")")
+            escaped = pattern.replace('"', '\\"')
+            print(f"   match: regex(r\"{escaped}\")")
             print(f"   category: CATEGORY")
             print(f"   subcategory: SUBCATEGORY")
             if stats['has_negative']:
@@ -211,7 +212,7 @@ def suggest_pattern(description):
     desc = re.sub(r'\s+\d{4,}.*$', '', desc)  # Remove trailing numbers (store IDs)
     desc = re.sub(r'\s+[A-Z]{2}$', '', desc)  # Remove trailing state codes
     desc = re.sub(r'\s+\d{5}$', '', desc)  # Remove zip codes
-    desc = re.sub(r'\s+#\d+', '', desc)  # Remove store numbers like #1234
+    desc = re.sub(r'\s+#\d+.*$', '', desc)  # Remove store numbers like #1234 and what follows (keeps a contiguous prefix)
 
     # Remove common prefixes
     prefixes = ['APLPAY ', 'SQ *', 'TST*', 'SP ', 'PP*', 'GOOGLE *']
@@ -264,10 +265,12 @@ def suggest_merchant_name(description):
 
 def suggest_merchants_rule(merchant_name, pattern, tags=None):
     """Generate a suggested rule block in .rules format."""
-    # Escape quotes in pattern if needed
+    # suggest_pattern() returns a regular expression (metacharacters escaped, words
+    # joined by \\s*): write it as regex(r"..."), a raw string so that the backslashes
+    # reach the regex engine; \\" is a literal quote there
     escaped_pattern = pattern.replace('"', '\\"')
     rule = f"""[{merchant_name}]
-match: contains("{escaped_pattern}")
+match: regex(r"{escaped_pattern}")
 category: CATEGORY
 subcategory: SUBCATEGORY"""
     if tags:
